@@ -2,7 +2,7 @@ package main
 
 func init() {
 	register("C01", []string{".", "./internal/compact", "./internal/rangekey", "./internal/rangekeystack", "./batchrepr"}, runC01)
-	propExplain["C01"] = "Decides structural necessary conditions of C01: (O1) every read entry point pins its view (read state / version) before it reads the visible sequence number, so a flush+compaction between the two cannot elide a version visible at that sequence number; (T1) every dispatch on the internal key kind in the read, apply and compaction paths that distinguishes most point kinds names all of them (or ends in a fail-stop default), and likewise for the range-key kinds — a kind silently falling into another kind's arm changes what reads return. Shares C17.S1 (a SINGLEDEL treats a SETWITHDEL beneath it as a DELETE in both the emitting and the eliding variant). Does not decide shadowing, merge semantics or level ordering (value-level)."
+	propExplain["C01"] = "Decides structural necessary conditions of C01: (O1) every read entry point pins its view (read state / version) before it reads the visible sequence number, so a flush+compaction between the two cannot elide a version visible at that sequence number; (T1) every dispatch on the internal key kind in the read, apply and compaction paths that distinguishes most point kinds names all of them (or ends in a fail-stop default), and likewise for the range-key kinds — a kind silently falling into another kind's arm changes what reads return. Shares C17.S1 (a SINGLEDEL treats a SETWITHDEL beneath it as a DELETE in both the emitting and the eliding variant) and C17.U1 (whole user keys are compared with the configured comparer, never bytewise). Does not decide shadowing, merge semantics or level ordering (value-level)."
 }
 
 var kindSwitchExceptions = map[string]string{
@@ -24,4 +24,5 @@ func runC01(c *Ctx) {
 	// shared with C17: what a compaction does to the keys under a SINGLEDEL decides what the
 	// latest view reads afterwards
 	runC17S1(c)
+	runC17U1(c)
 }
